@@ -13,8 +13,11 @@ import (
 	"io"
 	"log"
 	"os"
+	"runtime"
 	"sort"
 	"strconv"
+	"sync/atomic"
+	"time"
 )
 
 // Failure is one observed deviation of the real code from the expectation
@@ -133,4 +136,39 @@ func Main() {
 		Fatal("unknown command %q", os.Args[1])
 	}
 	f(os.Args[2:])
+}
+
+// Watchdog reports a harness that makes no progress: when *progress has not changed for `limit`, the
+// result gathered so far is emitted with one more failure of class `class` (a goroutine of the harness is
+// blocked inside the code under test - a deadlock or an operation that never returns) and the process
+// exits normally, so that the hang is a verdict and not a time-out of the check.
+func Watchdog(res *Result, progress *int64, limit time.Duration, class string, what func() string) {
+	go func() {
+		last := atomic.LoadInt64(progress)
+		since := time.Now()
+		for {
+			time.Sleep(limit / 20)
+			cur := atomic.LoadInt64(progress)
+			if cur != last {
+				last, since = cur, time.Now()
+				continue
+			}
+			if time.Since(since) < limit {
+				continue
+			}
+			buf := make([]byte, 1<<16)
+			n := runtime.Stack(buf, true)
+			stack := string(buf[:n])
+			if len(stack) > 6000 {
+				stack = stack[:6000]
+			}
+			detail := fmt.Sprintf("no progress for %v", limit)
+			if what != nil {
+				detail += ": " + what()
+			}
+			res.Fail(class, detail, map[string]interface{}{"goroutines": stack})
+			res.Emit()
+			os.Exit(0)
+		}
+	}()
 }
